@@ -2,7 +2,7 @@
    The C05_src_* theorems at the end are re-proved on every run against genprops/GammaGen.v, the translation of GammaResults.gamma /
    expected_disorder and of the sample-count rule of compute_gamma from the CURRENT continuum.py (harness/gen_gamma.py). *)
 From Coq Require Import String List Arith ZArith QArith Qround Bool Lia.
-From PGA Require Import Gamma.GammaK Gamma.GammaKProofs Gamma.GammaRun Gamma.GammaRunProofs Align.Tuples Align.Cover Align.Inst.
+From PGA Require Import Gamma.GammaK Gamma.GammaKProofs Gamma.GammaRun Gamma.GammaRunProofs Gamma.GammaCompose Align.Tuples Align.Cover Align.Inst.
 From PGAgen Require Import ConstGen.
 From PGAprops Require Import GammaGen PoolGen.
 Import ListNotations.
@@ -33,6 +33,20 @@ Theorem C05_identical_annotations_zero_disorder I m cs : (1 <= nann I)%nat -> (1
   Forall (wf_tuple (sz I)) cs -> incl (diag I m) cs -> (forall t, In t cs -> (0 <= ua_sum I t)%Z) ->
   exists l, opt_partition I cs = Some (0%Z, l).
 Proof. exact (identical_optimum_zero I m cs). Qed.
+
+(* THE WHOLE RUN as one function of the draw-ordered chance disorders (sampler and aligner are oracles): exactly max(n_samples, N_required) values
+   enter the mean (n_samples when no precision is given); the first batch is a prefix of what is averaged - the second batch neither drops,
+   recomputes nor reorders a sample; gamma is 1 - observed / mean over ALL of them *)
+Theorem C05_run_count conf n p d obs :
+  length (chance (run_gamma conf n (Some p) d obs)) = Z.to_nat (Z.max (Z.of_nat n) (n_required conf p (chance_of d n))).
+Proof. exact (run_gamma_count conf n p d obs). Qed.
+Theorem C05_run_count_without_precision conf n d obs : length (chance (run_gamma conf n None d obs)) = n.
+Proof. exact (run_gamma_count_no_precision conf n d obs). Qed.
+Theorem C05_run_first_batch_kept conf n prec d obs : firstn n (chance (run_gamma conf n prec d obs)) = chance_of d n.
+Proof. exact (run_gamma_first_batch_kept conf n prec d obs). Qed.
+Theorem C05_run_gamma_over_all_samples conf n prec d obs :
+  gamma_value (run_gamma conf n prec d obs) = gamma_of obs (chance (run_gamma conf n prec d obs)).
+Proof. exact (run_gamma_value conf n prec d obs). Qed.
 
 (* the constants of the CURRENT source (regenerated on every run): the confidence factor is positive and every named precision level is a
    percentage strictly between 0 and 1, as compute_gamma asserts *)
